@@ -1561,6 +1561,12 @@ class Interp:
                 f = z3.And if isinstance(n.op, ast.And) else z3.Or
                 return mk_bool(f(*[v.t for v in vals]))
             if self.spec:
+                if any(isinstance(v, V) and isinstance(v.sort, (S.TList, S.TSet, S.TDict, S.TStrC)) for v in vals):
+                    # `xs or []` in a specification is the value, as in the code
+                    try:
+                        return self._boolop_value(n, vals)
+                    except OutOfSubset:
+                        pass
                 f = z3.And if isinstance(n.op, ast.And) else z3.Or
                 return mk_bool(f(*[self.truthy(v) for v in vals]))
             # value-returning and/or over non-bools: build ite chain (if the operand sorts cannot be unified the expression is
